@@ -36,7 +36,8 @@ PROPS['C01'] = dict(
     level_note='Trusted: Coq kernel + vm_compute; harness/emitter/evaluator. Topics with a # level are outside the theorem (MQTT forbids them in PUBLISH).',
     theorems=['walk_matches', 'reachable_tries_wf', 'walk_history_spec', 'match_independent'],
     families=[dict(name='tries', corr='Tries', runs=[('x01', 1, 1), ('rsub', 300, 5000)]),
-              dict(name='crdt', corr='DState', runs=[('subs', 200, 3000)])],
+              dict(name='crdt', corr='DState', runs=[('subs', 200, 3000)]),
+              dict(name='broker', corr='Broker', runs=[('route', 40, 500)], par=8)],
     rule='x01: every filter of <=3 (quick) / <=4 (thorough) levels over {a,b,c,+,#,""} against every topic of the same '
          'depth over {a,b,c,""}, once with all filters in one tree and once with each filter alone in a fresh tree; '
          'random: subscribe/unsubscribe/re-subscribe histories as for C19. Non-trivial: >=1 mutation and >=1 query.',
@@ -47,7 +48,8 @@ NOT_APPLICABLE = {}
 
 PROPS['C06'] = dict(
     theorems=['pool_invariant', 'get_unique_or_exhausted', 'get_removes_exactly_v', 'put_frees_exactly_x'],
-    families=[dict(name='idpool', corr='IdPool', runs=[('bfs', 1, 1), ('random', 120, 2000)])],
+    families=[dict(name='idpool', corr='IdPool', runs=[('bfs', 1, 1), ('random', 120, 2000)]),
+              dict(name='broker', corr='Broker', runs=[('acks', 32, 400)], par=8)],
     level_text='Theorems: in every state reachable by any Get/Put history the free-interval list is sorted, disjoint, in range and denotes exactly the range minus the outstanding identifiers; Get returns a free in-range identifier or reports exhaustion iff none is free; Put frees exactly the given in-range identifier and is a no-op otherwise. The model is compared with the Go pool on every transition of every reachable state of small ranges and on seeded histories of the production range, including the interval list after every call and panics.',
     level_note='Trusted: Coq kernel + vm_compute; harness (verif hook exposing the unexported pool), emitter, evaluator. The model follows Put\'s case analysis as a structural recursion, not statement by statement: absence of panics in the Go code is observed by the harness (recover), not proved. The exhaustion marker -1 requires min >= 0 (wasp uses 0).',
     rule='bfs: breadth-first enumeration of all reachable free-list states for ranges [0,3],[1,4],[0,4] (thorough: also [1,6],[0,6]); every Get and every Put x, x in [min-1,max+1], from every state is one case (the path to the state plus the transition); random: 150-400 calls on 0..65535 and on small ranges with 10% free/unknown and 10% out-of-range releases. Non-trivial: at least one Get and one Put.',
@@ -93,7 +95,8 @@ PROPS['C10'] = dict(
 
 PROPS['C16'] = dict(
     theorems=['sort_search_contract', 'file_auth_first_match', 'file_auth_iff', 'static_auth_iff'],
-    families=[dict(name='auth', corr='Auth', runs=[('exhaustive', 1, 1), ('random', 250, 4000)])],
+    families=[dict(name='auth', corr='Auth', runs=[('exhaustive', 1, 1), ('random', 250, 4000)]),
+              dict(name='broker', corr='Broker', runs=[('lifecycle', 32, 400)], par=8)],
     level_text='Theorems: Go\'s sort.Search (exact bisection) returns the least index of a monotone predicate; the file handler (parse, stable sort by user digest, bisection, scan) returns for every file and candidate the mount point of the first line with that user and password digest, and accepts iff some line is configured for the pair (SHA-256 injective as explicit premise); the static handler accepts iff both match. Tied to the Go code by every table of <=2/3 entries over 4 users x 2 passwords x 3 line shapes in every order, and seeded tables of up to 15 lines with repeated users, empty mount points, 1- and 4-field lines and garbage digests, against 35-48 candidates each, through auth.FileHandler / StaticHandler on real files.',
     level_note='Trusted: Coq kernel + vm_compute; harness (writes the file, own crypto/sha256 for the digest table), emitter, evaluator. Not modelled: CSV quoting (plain fields only). The refusal CONNACK and "creates no session" part of C16 is exercised end-to-end by the lifecycle family (C11) once the node model covers it.',
     rule='exhaustive: see level text; random: 1-6 (every 7th case 6-15) lines. Non-trivial: at least one candidate accepted.',
@@ -103,7 +106,8 @@ PROPS['C16'] = dict(
 PROPS['C17'] = dict(
     theorems=['prefix_trim', 'no_cross_match', 'same_tenant_match'],
     families=[dict(name='mount', corr='Mount', runs=[('random', 150, 2000)]),
-              dict(name='crdt', corr='DState', runs=[('tenants', 150, 2500)])],
+              dict(name='crdt', corr='DState', runs=[('tenants', 150, 2500)]),
+              dict(name='broker', corr='Broker', runs=[('tenants', 32, 400)], par=8)],
     level_text='Theorems (matching level): trimming undoes prefixing for every mount point and topic; for mount points that are single levels other than +/#, no filter of one mount point (bare #, +/... included) matches any topic of another, and inside one mount point matching is matching of what the clients wrote. Tied to the Go code through Session.PrefixMountPoint/TrimMountPoint on random strings and through ByPattern / retained Get on a real replica holding the same filters and topics under 2-3 mount points. The delivery-level statement (publishes, retained replays and wills on client connections; client identifiers scoped by mount point) is exercised end-to-end by the broker families.',
     level_note='Trusted: Coq kernel + vm_compute; harness, emitter, evaluator. Premise mp_ok: mount points are non-empty single levels other than + and # (operator input that wasp does not validate).',
     rule='mount: 21 (mount point, topic) pairs per case, topics of 1-5 levels over {a,b,"",+,#,dev,long-level-name,non-ASCII}, 10% odd mount points; tenants: 3-7 filters of <=3 levels over {a,+,#,"",b} plus # per mount point, 1-3 retained topics each, 12 queries. Non-trivial: more than one pair / >=2 updates and a check.',
@@ -112,8 +116,20 @@ PROPS['C17'] = dict(
 PROPS['C07'] = dict(
     theorems=['match_spec', 'retained_last_write', 'get_exactly_matching', 'get_once_per_topic', 'retained_replicates'],
     families=[dict(name='tries', corr='Tries', runs=[('x07', 1, 1), ('rtop', 300, 5000)]),
-              dict(name='crdt', corr='DState', runs=[('retained', 250, 4000)])],
+              dict(name='crdt', corr='DState', runs=[('retained', 250, 4000)]),
+              dict(name='broker', corr='Broker', runs=[('retained', 32, 400)], par=8)],
     level_text='Theorems (store level): a Match on the retained trie returns exactly the non-empty values under the topics the filter matches after any insert/remove history; after any operation history the entry of a topic is decided by the last retained publish or clear on that topic alone (other topics, prefixes included, do not matter); Get(filter) lists exactly the added entries of matching topics, each topic once; the store replicates as an LWW map. Tied to the Go code by the exhaustive filter x topic scope on topics.Store, seeded trie histories, and seeded set/clear/Get histories through distributed Topics() on two replicas with shuffled, duplicated gossip.',
     level_note='Trusted: Coq kernel + vm_compute; harness, emitter, evaluator. The replay to a new subscriber after SUBACK, the retain flag on the replayed copy and the unflagged live copy are exercised end-to-end by the broker families; filters with a non-final # are excluded (MQTT calls them invalid; topics.match treats a # level as "everything below" wherever it stands).',
     rule='x07: every filter of <=3 levels over {a,b,+,#,""} against all 39 topics of <=3 levels over {a,b,""}; rtop: seeded insert/remove/match histories; retained: 2-29 set/clear operations over 8 topics with shared prefixes and empty levels, replicated shuffled with duplicates, 16+ Get queries with filters of <=3 levels over {a,b,c,+,#,""}.',
 )
+
+def _broker(runs):
+    return dict(name='broker', corr='Broker', runs=runs, par=8)
+
+PROPS['C02'] = dict(theorems=[], families=[_broker([('pipeline', 40, 400)])], rule='pipeline: 1-3 publishers and subscribers, 1-12 publishes (QoS mix) from the very first log entry on; thorough: every 8th case 520 publishes (segment roll).')
+PROPS['C03'] = dict(theorems=[], families=[_broker([('acks', 48, 600)])], rule='acks: 1-3 sessions subscribed at QoS 1/2, 1-4 messages, per in-flight message the client acknowledges / stays silent for sweeps / answers with the wrong type or an unknown identifier / ends its session, interleaved; then a fresh subscriber shows which identifiers are reusable.')
+PROPS['C05'] = dict(theorems=[], families=[_broker([('inbound', 48, 600)])], rule='inbound: 2 nodes, PUBLISH QoS 0/1/2 with fresh and repeated identifiers, PUBREL (repeated, unknown), sweeps, injected local-log and remote-node failures.')
+PROPS['C11'] = dict(theorems=[], families=[_broker([('lifecycle', 48, 600)])], rule='lifecycle: 1-2 nodes, sessions with subscribe/unsubscribe/ping/publish ending by DISCONNECT, EOF, read deadline, protocol error or staying connected; refused CONNECTs; listings at the end.')
+PROPS['C12'] = dict(theorems=[], families=[_broker([('takeover', 40, 500)])], rule='takeover: chains of 2-3 connections sharing a client identifier on 1-2 nodes, old sessions ping/subscribe/disconnect/lose the connection, gossip in between; a connection with the same identifier in another mount point.')
+PROPS['C13'] = dict(theorems=[], families=[_broker([('wills', 24, 300)])], rule='wills: will QoS x retain x topic (empty levels, other tenant name) x ending (EOF, deadline, protocol error, DISCONNECT, host failure with and without prior DISCONNECT) x hosting node, watchers on every node and in another mount point.')
+PROPS['C14'] = dict(theorems=[], families=[_broker([('cluster', 40, 500)])], rule='cluster: 2-3 nodes, 0-2 subscribers per node with filters t/#, t/+, u, publisher on any node, every subset of other nodes unreachable, topics t/a, u, v.')
